@@ -13,6 +13,7 @@ import (
 	"golang.org/x/text/transform"
 	"pgregory.net/rapid"
 
+	"verifharness/gen"
 	"verifharness/ref"
 	"verifharness/vk"
 )
@@ -20,6 +21,7 @@ import (
 var rec = vk.NewRecorder("C08")
 
 func TestMain(m *testing.M) {
+	vk.Disturb = gen.Disturb
 	code := m.Run()
 	rec.Flush("all")
 	os.Exit(code)
